@@ -21,7 +21,7 @@ package flyt
 // A2: retry settings are pure views during one run; budgets are >= 1.
 //@ axiom forall n Node :: cfgRetries(n) >= 1
 // A5/A6: a node handed to the framework is usable as a map key and is not a typed-nil builder pointer.
-//@ spec func okNode(n Node) bool = hashable(n) && (isType(n, *BatchNodeBuilder) ==> n.(*BatchNodeBuilder) != nil)
+//@ spec func okNode(n Node) bool = hashable(n) && okBatchNode(n)
 
 //@ abstract Node.Prep(n, c, s) (v, e)
 //@   havoc user
@@ -169,7 +169,7 @@ package flyt
 //@   ensures r == n.batchConcurrency
 //@ func (*BaseNode).GetBatchErrorHandling(n) (r)
 //@   requires n != nil
-//@   ensures [C19] r == (n.batchErrorHandling == "" ? "continue" : n.batchErrorHandling)
+//@   ensures r == (n.batchErrorHandling == "" ? "continue" : n.batchErrorHandling)
 //@ func (*BaseNode).Prep(n, ctx, shared) (v, err)
 //@   ensures v == nil && err == nil && callbacks == old(callbacks)
 //@ func (*BaseNode).Exec(n, ctx, p) (v, err)
@@ -543,7 +543,7 @@ package flyt
 //@   loop 1 init acc = made([]string, 1)
 //@   loop 1 step n++
 //@   loop 1 invariant [C14] n == card(visited(1)) && len(acc) == n && n >= 0
-//@   loop 1 invariant [C14] fresh(sarr(acc)) && soff(acc) == 0 && framed([]string)
+//@   loop 1 invariant fresh(sarr(acc)) && soff(acc) == 0 && framed([]string)
 //@   loop 1 invariant [C14] forall j int :: 0 <= j && j < n ==> has(visited(1), acc[j])
 //@   loop 1 invariant [C14] forall i int :: forall j int :: 0 <= i && i < j && j < n ==> acc[i] != acc[j]
 //@   ensures [C14] fresh(sarr(res)) && len(res) == len(s.data)
@@ -642,25 +642,25 @@ package flyt
 //@   ghost i int = 0
 //@   loop 1 init i = 0
 //@   loop 1 step i++
-//@   loop 1 invariant [C15,C06] 0 <= i && i <= len(v.([]string)) && len(made([]any, 1)) == len(v.([]string)) && soff(made([]any, 1)) == 0 && framed([]string)
+//@   loop 1 invariant 0 <= i && i <= len(v.([]string)) && len(made([]any, 1)) == len(v.([]string)) && soff(made([]any, 1)) == 0 && framed([]string)
 //@   loop 1 invariant [C15,C06] forall j int :: 0 <= j && j < i ==> made([]any, 1)[j] == box(v.([]string)[j], string)
 //@   loop 2 init i = 0
 //@   loop 2 step i++
-//@   loop 2 invariant [C15,C06] 0 <= i && i <= len(v.([]int)) && len(made([]any, 2)) == len(v.([]int)) && soff(made([]any, 2)) == 0 && framed([]int)
+//@   loop 2 invariant 0 <= i && i <= len(v.([]int)) && len(made([]any, 2)) == len(v.([]int)) && soff(made([]any, 2)) == 0 && framed([]int)
 //@   loop 2 invariant [C15,C06] forall j int :: 0 <= j && j < i ==> made([]any, 2)[j] == box(v.([]int)[j], int)
 //@   loop 3 init i = 0
 //@   loop 3 step i++
-//@   loop 3 invariant [C15,C06] 0 <= i && i <= len(v.([]float64)) && len(made([]any, 3)) == len(v.([]float64)) && soff(made([]any, 3)) == 0 && framed([]float64)
+//@   loop 3 invariant 0 <= i && i <= len(v.([]float64)) && len(made([]any, 3)) == len(v.([]float64)) && soff(made([]any, 3)) == 0 && framed([]float64)
 //@   loop 3 invariant [C15,C06] forall j int :: 0 <= j && j < i ==> made([]any, 3)[j] == box(v.([]float64)[j], float64)
 //@   loop 4 init i = 0
 //@   loop 4 step i++
-//@   loop 4 invariant [C15,C06] 0 <= i && i <= len(v.([]map[string]any)) && len(made([]any, 4)) == len(v.([]map[string]any)) && soff(made([]any, 4)) == 0 && framed([]map[string]any)
+//@   loop 4 invariant 0 <= i && i <= len(v.([]map[string]any)) && len(made([]any, 4)) == len(v.([]map[string]any)) && soff(made([]any, 4)) == 0 && framed([]map[string]any)
 //@   loop 4 invariant [C15,C06] forall j int :: 0 <= j && j < i ==> made([]any, 4)[j] == box(v.([]map[string]any)[j], map[string]any)
 //@   loop 5 init i = 0
 //@   loop 5 step i++
-//@   loop 5 invariant [C15,C06] 0 <= i && i <= lenOf(v) && len(made([]any, 5)) == lenOf(v) && soff(made([]any, 5)) == 0
+//@   loop 5 invariant 0 <= i && i <= lenOf(v) && len(made([]any, 5)) == lenOf(v) && soff(made([]any, 5)) == 0
 //@   loop 5 invariant [C15,C06] forall j int :: 0 <= j && j < i ==> made([]any, 5)[j] == elemOf(v, j)
-//@   ensures [C15,C06] v == nil ==> len(res) == 0
+//@   ensures v == nil ==> len(res) == 0
 //@   ensures [C15,C06] isType(v, []any) ==> res == v.([]any)
 //@   ensures [C15,C06] isType(v, []string) ==> len(res) == len(v.([]string)) && (forall j int :: 0 <= j && j < len(res) ==> res[j] == box(v.([]string)[j], string))
 //@   ensures [C15,C06] isType(v, []int) ==> len(res) == len(v.([]int)) && (forall j int :: 0 <= j && j < len(res) ==> res[j] == box(v.([]int)[j], int))
@@ -756,7 +756,8 @@ package flyt
 //@     requires [C20] nExec > 0 && waitOf(node) > 0 ==> now >= lastEnd + waitOf(node)
 //@     effect nExec++; lastRes = v; lastErr = e; attErr = e; lastEnd = now
 //@   on call FallbackNode.ExecFallback(n, p, e0) returns (v, e)
-//@     requires [C02,C07] n == node && nExec == budget(node) && attErr != nil && p == box(item, Result) && e0 == attErr && nFb == 0
+//@     requires [C07] n == node && p == box(item, Result) && nFb == 0 && attErr != nil && e0 == attErr
+//@     requires [C02] nExec == budget(node)
 //@     effect nFb = 1; lastRes = v; lastErr = e
 //@   loop 1 invariant nExec >= 0 && nFb == 0 && attErr == lastErr && !sawCancel && (nExec > 0 ==> lastErr != nil)
 //@   loop 1 invariant [C02] nExec <= budget(node)
@@ -777,7 +778,7 @@ package flyt
 //@   loop 1 invariant [C09,C11] forall j int :: 0 <= j && j < i ==> results[j].err != nil
 //@   loop 1 invariant forall k int :: k < soff(results) || k >= soff(results) + len(results) ==> raw(results, k) == old(raw(results, k))
 //@   loop 1 decreases len(results) - i
-//@   ensures [C09,C11] forall j int :: 0 <= j && j < len(results) ==> results[j].err != nil
+//@   ensures [C09,C11] forall k int :: soff(results) <= k && k < soff(results) + len(results) ==> raw(results, k).err != nil
 //@   ensures forall k int :: k < soff(results) || k >= soff(results) + len(results) ==> raw(results, k) == old(raw(results, k))
 
 //@ func runBatchSequential(ctx, node, items, results, errorHandling) ()
@@ -786,7 +787,8 @@ package flyt
 //@   assigns contents(results)
 //@   ghost i int = 0; cnt [int]int = zeroArr([int]int); outV [int]any = zeroArr([int]any); outE [int]error = zeroArr([int]error); stopped bool = false
 //@   on call runExecWithRetries(c, n, it) returns (v, e)
-//@     requires [C06] c == ctx && n == node && 0 <= i && i < len(items) && it == items[i]
+//@     requires 0 <= i && i < len(items)
+//@     requires [C06] c == ctx && n == node && it == items[i]
 //@     requires [C07] cnt[i] == 0
 //@     requires [C09] !stopped
 //@     requires [C11] !cancelled
@@ -809,7 +811,7 @@ package flyt
 //@ spec func batchConc(n Node) int = batchBase(n) == nil ? 0 : batchBase(n).batchConcurrency
 //@ spec func batchMode(n Node) string = batchBase(n) == nil ? "continue" : (batchBase(n).batchErrorHandling == "" ? "continue" : batchBase(n).batchErrorHandling)
 // the node's embedded pointers are set (true for every node built by the package's constructors)
-//@ spec func okBatchNode(n Node) bool = (isType(n, *BaseNode) ==> n.(*BaseNode) != nil) && (isType(n, *CustomNode) ==> n.(*CustomNode) != nil && n.(*CustomNode).BaseNode != nil) && (isType(n, *BatchNode) ==> n.(*BatchNode) != nil && n.(*BatchNode).CustomNode != nil && n.(*BatchNode).CustomNode.BaseNode != nil) && (isType(n, *BatchNodeBuilder) ==> n.(*BatchNodeBuilder) != nil && n.(*BatchNodeBuilder).BatchNode != nil && n.(*BatchNodeBuilder).BatchNode.CustomNode != nil && n.(*BatchNodeBuilder).BatchNode.CustomNode.BaseNode != nil)
+//@ spec func okBatchNode(n Node) bool = (isType(n, *BaseNode) ==> n.(*BaseNode) != nil) && (isType(n, *CustomNode) ==> n.(*CustomNode) != nil && n.(*CustomNode).BaseNode != nil) && (isType(n, *BatchNode) ==> n.(*BatchNode) != nil && n.(*BatchNode).CustomNode != nil && n.(*BatchNode).CustomNode.BaseNode != nil) && (isType(n, *BatchNodeBuilder) ==> n.(*BatchNodeBuilder) != nil && n.(*BatchNodeBuilder).BatchNode != nil && n.(*BatchNodeBuilder).BatchNode.CustomNode != nil && n.(*BatchNodeBuilder).BatchNode.CustomNode.BaseNode != nil) && (batchBase(n) != nil ==> batchBase(n).batchConcurrency <= 1073741824)
 // prep value -> item list: []Result as is, []any / ToSlice elements wrapped once each, order preserved
 //@ spec func normalized(its []Result, pv any, ts []any) bool = (isType(pv, []Result) ==> its == pv.([]Result)) && (isType(pv, []any) ==> len(its) == len(pv.([]any)) && (forall j int :: 0 <= j && j < len(its) ==> its[j] == Result{pv.([]any)[j], nil})) && (!isType(pv, []Result) && !isType(pv, []any) ==> len(its) == len(ts) && (forall j int :: 0 <= j && j < len(its) ==> its[j] == Result{ts[j], nil}))
 
@@ -845,11 +847,11 @@ package flyt
 //@     effect ph = 3; nPost = 1; postAct = a; postErr = e
 //@   loop 1 init i = 0
 //@   loop 1 step i++
-//@   loop 1 invariant [C06] 0 <= i && i <= len(pv.([]any)) && len(made([]Result, 1)) == len(pv.([]any)) && soff(made([]Result, 1)) == 0 && framed([]any)
+//@   loop 1 invariant 0 <= i && i <= len(pv.([]any)) && len(made([]Result, 1)) == len(pv.([]any)) && soff(made([]Result, 1)) == 0 && framed([]any)
 //@   loop 1 invariant [C06] forall j int :: 0 <= j && j < i ==> made([]Result, 1)[j] == Result{pv.([]any)[j], nil}
 //@   loop 2 init i = 0
 //@   loop 2 step i++
-//@   loop 2 invariant [C06] 0 <= i && i <= len(ts) && len(made([]Result, 2)) == len(ts) && soff(made([]Result, 2)) == 0 && framed([]any)
+//@   loop 2 invariant 0 <= i && i <= len(ts) && len(made([]Result, 2)) == len(ts) && soff(made([]Result, 2)) == 0 && framed([]any)
 //@   loop 2 invariant [C06] forall j int :: 0 <= j && j < i ==> made([]Result, 2)[j] == Result{ts[j], nil}
 //@   ensures [C06] perr == nil ==> nPost == 1
 //@   ensures [C04] perr != nil ==> err != nil && Is(err, perr) && nPost == 0 && ph == 1
@@ -872,11 +874,14 @@ package flyt
 //@   on go (*WorkerPool).worker(q)
 //@     requires [C08,C12] q == alloc(WorkerPool, 1)
 //@     effect k++
-//@   loop 1 invariant [C08,C12,C19] 0 <= k && k <= poolSize(workers) && spawned == k
+//@   loop 1 invariant 0 <= k && k <= poolSize(workers)
+//@   loop 1 invariant [C08,C12,C19] spawned == k
 //@   loop 1 decreases [C08] poolSize(workers) - k
-//@   ensures [C08,C12,C19] fresh(p) && p.workers == poolSize(workers)
+//@   ensures fresh(p)
+//@   ensures [C08,C12,C19] p.workers == poolSize(workers)
 //@   ensures [C08,C12,C19] spawned == poolSize(workers)
-//@   ensures [C08,C12] allocated(p.tasks) && allocated(p.done) && p.tasks != nil && p.done != nil && p.tasks != p.done && !closed(p.tasks) && !closed(p.done) && chancap(p.tasks) == 2 * poolSize(workers)
+//@   ensures allocated(p.tasks) && allocated(p.done) && p.tasks != nil && p.done != nil && p.tasks != p.done && !closed(p.tasks) && !closed(p.done)
+//@   ensures [C08,C12] chancap(p.tasks) == 2 * poolSize(workers)
 
 //@ func (*WorkerPool).worker(p) ()
 //@   requires p != nil
